@@ -20,6 +20,9 @@ Proof. destruct (str_eqb_spec a b); split; congruence. Qed.
 Lemma str_eqb_neq a b : str_eqb a b = false <-> a <> b.
 Proof. destruct (str_eqb_spec a b); split; congruence. Qed.
 
+Lemma str_eqb_sym a b : str_eqb a b = str_eqb b a.
+Proof. destruct (str_eqb_spec a b), (str_eqb_spec b a); congruence. Qed.
+
 Definition mem_str (x : str) (l : list str) : bool := existsb (str_eqb x) l.
 Lemma mem_str_In x l : mem_str x l = true <-> In x l.
 Proof.
